@@ -56,7 +56,6 @@ func donorEntries() map[string]entry {
 		sig := types.ExtractScriptSigFromCoinbaseTx(b)
 		step(func() { types.ExtractCoinbaseOutFromCoinbaseTx(b) })
 		step(func() { types.ValidatePrevOutPointIndexAndSequenceOfCoinbase(b) })
-		step(func() { types.HasWitnessCommitment(types.ExtractCoinbaseOutFromCoinbaseTx(b)) })
 		for id := types.Kawpow; id <= types.Scrypt; id++ {
 			id := id
 			step(func() { types.AuxPowTxHash(id, b) })
